@@ -54,7 +54,29 @@ func main() {
 	opts := &stack.Opts{NameArguments: true}
 	shared, _, _ := stack.ScanSnapshot(strings.NewReader(dumps[0]), io.Discard, opts)
 	levels := []stack.Similarity{stack.ExactFlags, stack.ExactLines, stack.AnyPointer, stack.AnyValue}
-	// sequential reference
+	// concurrent phase first (so that lazily initialised shared state, if any,
+	// is first touched concurrently), sequential reference afterwards
+	type res struct{ key, out string }
+	var wg sync.WaitGroup
+	var mu sync.Mutex
+	var got []res
+	for w := 0; w < 16; w++ {
+		wg.Add(1)
+		go func(w int) {
+			defer wg.Done()
+			for it := 0; it < 6; it++ {
+				li := (w + it) % 4
+				o := render(shared, levels[li])
+				di := (w*7 + it) % len(dumps)
+				s, _, _ := stack.ScanSnapshot(strings.NewReader(dumps[di]), io.Discard, opts)
+				o2 := render(s, levels[li])
+				mu.Lock()
+				got = append(got, res{fmt.Sprint("shared", li), o}, res{fmt.Sprint(di, li), o2})
+				mu.Unlock()
+			}
+		}(w)
+	}
+	wg.Wait()
 	ref := map[string]string{}
 	for li, l := range levels {
 		ref[fmt.Sprint("shared", li)] = render(shared, l)
@@ -65,31 +87,12 @@ func main() {
 			ref[fmt.Sprint(di, li)] = render(s, l)
 		}
 	}
-	var wg sync.WaitGroup
-	var mu sync.Mutex
 	bad := 0
-	for w := 0; w < 16; w++ {
-		wg.Add(1)
-		go func(w int) {
-			defer wg.Done()
-			for it := 0; it < 6; it++ {
-				li := (w + it) % 4
-				if got := render(shared, levels[li]); got != ref[fmt.Sprint("shared", li)] {
-					mu.Lock()
-					bad++
-					mu.Unlock()
-				}
-				di := (w*7 + it) % len(dumps)
-				s, _, _ := stack.ScanSnapshot(strings.NewReader(dumps[di]), io.Discard, opts)
-				if got := render(s, levels[li]); got != ref[fmt.Sprint(di, li)] {
-					mu.Lock()
-					bad++
-					mu.Unlock()
-				}
-			}
-		}(w)
+	for _, g := range got {
+		if g.out != ref[g.key] {
+			bad++
+		}
 	}
-	wg.Wait()
 	if bad != 0 {
 		fmt.Printf("RESULT-MISMATCH %d\n", bad)
 		os.Exit(3)
